@@ -78,3 +78,22 @@ Print Assumptions C10_unified_aed_ds.
 Print Assumptions C10_experimental_windowed.
 Print Assumptions C10_real_expansion_givens.
 Print Assumptions C10_flag_givens.
+
+From QVT Require Import EigResidual.
+Section E.
+Variable C : CRing.
+Notation qmat := (qmat C).
+(* "carrying the eigenvalues of A": with Q unitary and Q^H A Q = B (B = T + D of the similarity theorems), column i of Q is a right eigenvector
+   for the diagonal entry b_ii up to EXACTLY the rest of column i of B, ||A q_i - q_i b_ii||^2 = sum_{k <> i} |b_ki|^2; when B is diagonal
+   (converged Hermitian case with nothing discarded) A q_i = q_i b_ii holds exactly -- for every size *)
+Theorem C10_diagonal_carries_eigenvalues n (A Q B : qmat) :
+  meq n n (qmm n (qherm Q) Q) qmid -> meq n n (qmm n Q (qherm Q)) qmid -> meq n n (qmm n (qmm n (qherm Q) A) Q) B ->
+  (forall i, i < n -> frob2 n 1 (fun l _ => qsub (qmm n A Q l i) (qmul (Q l i) (B i i))) = sumR n (fun k => if Nat.eqb k i then c0 else qnorm2 (B k i))) /\
+  ((forall k i, k < n -> i < n -> k <> i -> B k i = qzero) -> forall l i, l < n -> i < n -> qmm n A Q l i = qmul (Q l i) (B i i)).
+Proof.
+  intros H1 H2 H3. split.
+  - intros i Hi. exact (eigen_residual_is_offdiagonal_column C n A Q B H1 H2 H3 i Hi).
+  - exact (diagonal_form_gives_eigenvectors C n A Q B H2 H3).
+Qed.
+End E.
+Print Assumptions C10_diagonal_carries_eigenvalues.
